@@ -178,81 +178,12 @@ func checkOnce(w world.World, tracerMode string) error {
 	}
 	// ---- trace bracketing (needs every callback)
 	if tracerMode == "" || tracerMode == "full" {
-		if err := bracketing(h.Log); err != nil {
+		if err := world.CheckBracketing(h.Log); err != nil {
 			return err
 		}
 	}
 	return nil
 }
-
-// bracketing: per kind, start -> exactly one success|failure with the same key;
-// the real call sits between them; 'already' only after a success for that key.
-func bracketing(log []world.Event) error {
-	type st struct {
-		open    string
-		called  bool
-		success map[string]bool
-	}
-	kinds := map[string]*st{"versions": {success: map[string]bool{}}, "source": {success: map[string]bool{}}, "download": {success: map[string]bool{}}}
-	callKind := map[string]string{"versions": "versions", "source": "source", "fetch": "download"}
-	for i, e := range log {
-		if k, ok := callKind[e.Kind]; ok {
-			s := kinds[k]
-			if s.open == "" {
-				return fmt.Errorf("event %d: %s call for %s outside a start/success bracket of the tracer", i, e.Kind, e.Key)
-			}
-			if s.open != e.Key && !(k == "source" && sameVersionKey(s.open, e.Key)) {
-				return fmt.Errorf("event %d: %s call for %s inside the bracket opened for %s", i, e.Kind, e.Key, s.open)
-			}
-			if s.called {
-				return fmt.Errorf("event %d: second %s call for %s inside one bracket", i, e.Kind, e.Key)
-			}
-			s.called = true
-			continue
-		}
-		if !strings.HasPrefix(e.Kind, "trace:") {
-			continue
-		}
-		parts := strings.SplitN(strings.TrimPrefix(e.Kind, "trace:"), "-", 2)
-		if len(parts) != 2 {
-			continue
-		}
-		s := kinds[parts[0]]
-		if s == nil {
-			continue
-		}
-		switch parts[1] {
-		case "start":
-			if s.open != "" {
-				return fmt.Errorf("event %d: %s start for %s while the bracket for %s is still open", i, parts[0], e.Key, s.open)
-			}
-			s.open, s.called = e.Key, false
-		case "success", "failure":
-			if s.open != e.Key {
-				return fmt.Errorf("event %d: %s %s for %s without a matching start (open: %q)", i, parts[0], parts[1], e.Key, s.open)
-			}
-			if !s.called {
-				return fmt.Errorf("event %d: %s %s for %s although the real call never happened", i, parts[0], parts[1], e.Key)
-			}
-			if parts[1] == "success" {
-				s.success[e.Key] = true
-			}
-			s.open = ""
-		case "already":
-			if !s.success[e.Key] {
-				return fmt.Errorf("event %d: %s 'already' event for %s, but no success was reported for it earlier", i, parts[0], e.Key)
-			}
-		}
-	}
-	for k, s := range kinds {
-		if s.open != "" {
-			return fmt.Errorf("%s start for %s was never followed by success or failure", k, s.open)
-		}
-	}
-	return nil
-}
-
-func sameVersionKey(a, b string) bool { return a == b }
 
 func diagStrings(r world.CallResult) []string {
 	var out []string
@@ -383,3 +314,53 @@ func TestReplay(t *testing.T) { ev.Replay(t) }
 func TestKnown(t *testing.T)  { ev.KnownFindings(t) }
 
 var _ = sort.Strings
+
+// ---------------------------------------------------------------------------
+// the trace stays truthful when a fetch / registry call fails: every start is
+// followed by exactly one success or failure, and an 'already' event never
+// refers to work that did not complete.
+
+type FaultedCase struct {
+	World world.World `json:"world"`
+	Fault world.Fault `json:"fault"`
+}
+
+var subFaultedTrace = ev.Register("faultedtrace", func(c FaultedCase) error {
+	if exp := world.Reference(c.World, nFinders); exp.Error != "" || exp.Ambiguous {
+		ev.Label("not-judged")
+		return nil
+	}
+	arena, cleanup := fsx.Scratch("c14f-")
+	defer cleanup()
+	h := world.NewHarness(c.World, nFinders)
+	h.Faults = []world.Fault{c.Fault}
+	h.Budget = 20000
+	run, err := world.Start(h, world.TargetDir(arena))
+	if err != nil {
+		return fmt.Errorf("harness: %v", err)
+	}
+	ctx := h.Context("full")
+	for _, call := range c.World.Script {
+		res := run.DoCall(ctx, call)
+		if res.Panicked != nil || res.Diags.HasErrors() {
+			break
+		}
+	}
+	if h.Overbudget {
+		return fmt.Errorf("the build does not terminate after fault %v", c.Fault)
+	}
+	if h.Count(c.Fault.Kind) >= c.Fault.N {
+		ev.NonTrivial(c, "fault-fired")
+	}
+	if err := world.CheckBracketing(h.Log); err != nil {
+		return fmt.Errorf("with fault %v: %v", c.Fault, err)
+	}
+	return nil
+})
+
+func TestPropFaultedTrace(t *testing.T) {
+	ev.Check(t, subFaultedTrace, func(t *rapid.T) FaultedCase {
+		w := world.Gen(t, world.Config{MaxRemotes: 3, MaxRegistry: 2, NFinders: nFinders})
+		return FaultedCase{World: w, Fault: world.Fault{Kind: rapid.SampledFrom([]string{"fetch", "versions", "source", "source", "finder-error"}).Draw(t, "kind"), N: rapid.IntRange(1, 3).Draw(t, "n")}}
+	})
+}
